@@ -647,8 +647,119 @@ def probe_forward_through_send(ctx):
         ctx.violation(rp, "forwarding **kwargs through sm.send raises TypeError")
 
 
+def probe_internal_names(seed):
+    """Directed family: user keyword arguments named like something *inside the library*. Every identifier that is a
+    parameter of some function or method of the `statemachine` package (read from its source with `ast`: `key`,
+    `left`, `right`, `spec`, `callback`, `args`, `kwargs`, `func`, `value`, `instance`, ...) is sent as a user keyword
+    through a machine that uses guard expressions, validators, named / inline / decorated actions, a listener, a model
+    and an event used as a callback. Unless it is one of the 8 reserved names, a callback declaring `**kwargs` gets it
+    with its value, and a callback declaring it as a parameter gets it too. (`self` cannot be passed as a keyword to
+    any bound method in Python; `event` through `send()` is the recorded finding D24 — the event method is used.)"""
+    import ast
+    import glob
+    import random
+    import warnings
+    import statemachine
+    from statemachine import State, StateMachine
+    RESERVED = {"event_data", "machine", "event", "model", "transition", "state", "source", "target"}
+    root = os.path.dirname(statemachine.__file__)
+    names = set()
+    for fn in glob.glob(os.path.join(root, "**", "*.py"), recursive=True):
+        try:
+            tree = ast.parse(open(fn).read())
+        except SyntaxError:
+            continue
+        for node in ast.walk(tree):
+            if isinstance(node, (ast.FunctionDef, ast.AsyncFunctionDef, ast.Lambda)):
+                a = node.args
+                for x in a.posonlyargs + a.args + a.kwonlyargs + [y for y in (a.vararg, a.kwarg) if y]:
+                    names.add(x.arg)
+    names -= {"self", "cls"}
+    names = sorted(n for n in names if n.isidentifier())
+    rng = random.Random(f"{seed}:internal-names")
+    fails = []
+    got = {}
+    with warnings.catch_warnings():
+        warnings.simplefilter("ignore")
+
+        class Lst:
+            def after_go(self, **kw):
+                got["listener"] = kw
+
+        class Mdl:
+            state = None
+            flag_b = False
+
+            def before_go(self, **kw):
+                got["model"] = kw
+
+        def inline(**kw):
+            got["inline"] = kw
+
+        class IN(StateMachine):
+            s1 = State(initial=True)
+            s2 = State()
+            go = s1.to(s2, cond="flag_a and not flag_b", unless="flag_b or flag_c", validators="check",
+                       on=["do", inline], after="back") | s2.to(s1, cond="flag_a")
+            back = s2.to(s1)
+            flag_a = True
+            flag_c = False
+
+            def check(self, **kw):
+                got["validator"] = kw
+
+            def do(self, **kw):
+                got["on"] = kw
+
+            @go.before
+            def deco(self, *args, **kw):
+                got["decorated"] = kw
+        for name in names:
+            val = rng.randint(1, 10 ** 6)
+            got.clear()
+            sm = IN(Mdl(), listeners=[Lst()])
+            try:
+                sm.go(**{name: val})
+            except Exception as e:
+                fails.append(f"user keyword `{name}`: {type(e).__name__}: {str(e)[:120]}")
+                continue
+            for where in ("validator", "on", "inline", "decorated", "model", "listener"):
+                kw = got.get(where)
+                if kw is None:
+                    fails.append(f"user keyword `{name}`: the `{where}` callback did not run")
+                    break
+                if name in RESERVED:
+                    if kw.get(name) == val:
+                        fails.append(f"reserved name `{name}` given by the user reached the `{where}` callback")
+                        break
+                elif kw.get(name) != val:
+                    fails.append(f"user keyword `{name}`={val}: the `{where}` callback got {kw.get(name)!r}")
+                    break
+            # a callback that declares the name as a parameter
+            if name not in RESERVED and name not in ("args", "kwargs") and not fails:
+                ns = {}
+                exec(f"def cb(self, {name}=None):\n    seen.append({name})", {"seen": (seen := [])}, ns)
+
+                class P(StateMachine):
+                    s1 = State(initial=True)
+                    s2 = State(final=True)
+                    go = s1.to(s2, on="cb")
+                    cb = ns["cb"]
+                try:
+                    P().go(**{name: val})
+                    if seen != [val]:
+                        fails.append(f"parameter `{name}` of a callback got {seen}, the user sent {val}")
+                except Exception as e:
+                    fails.append(f"callback parameter `{name}`: {type(e).__name__}: {str(e)[:120]}")
+    return len(names), fails
+
+
 def run(ctx):
     lean_obligations(ctx)
+    nn, nf = probe_internal_names(ctx.seed)
+    ctx.coverage["internal_parameter_names_sent_as_user_keywords"] = nn
+    if nf:
+        ctx.violation(ctx.write_replay("internal_names.txt", "\n".join(nf[:15]) + "\n"), nf[0][:200])
     b = subprocess.run(["lake", "build", "drv_bind"], cwd=LEAN, capture_output=True, text=True)
     if b.returncode != 0:
         raise RuntimeError("drv_bind does not build: " + (b.stdout + b.stderr)[-800:])
